@@ -605,30 +605,48 @@ type c05kobs struct {
 	hasData bool
 	md      int // GetCacheFileMetadata(TorrentMeta)
 	gm      int // first getMetaInfo after the restart
-	fin     int // getMetaInfo after the on-demand paths ran (refresh from the backend / upload retry)
+	fin     int // getMetaInfo after the refresh it triggered completed (the backend holds the blob)
+	rt      int // getMetaInfo after the client retried its upload (start -> 409 -> writeBack); empty backend
 }
 
-// c05observe runs the REAL recovery on dir and projects what the property speaks about.
-func c05observe(dir string) (coq string, opened bool, nlisted int, stuck bool) {
+func c05poll(e *c05env, i int, first int) int {
+	// absent metainfo makes the origin refresh the blob from the backend in the background; poll as a
+	// tracker would (a broken sidecar is never repaired by polling on the unfixed code)
+	d, blob := c05digest(i), c05content(i)
+	cl := first
+	for try := 0; try < 400 && cl != c05MValid; try++ {
+		time.Sleep(2 * time.Millisecond)
+		raw, gerr := e.s.getMetaInfo(c05NS, d)
+		cl = c05classRaw(raw, gerr, d.Hex(), blob)
+		if cl == c05MBroken && try >= 5 {
+			break
+		}
+	}
+	return cl
+}
+
+// c05observe runs the REAL recovery on dir (and on dir2, a second copy of the same crash state, for
+// the upload-retry path with an empty backend) and projects what the property speaks about.
+func c05observe(dir string, dir2 func() (string, error)) (coq string, nlisted int, stuck bool, err error) {
 	all := make([]int, c05NBlobs)
 	for i := range all {
 		all[i] = i
 	}
-	e, err := c05open(dir, all) // the backend holds every blob
-	if err != nil {
-		return "mkrobs false false [] []", false, 0, false
+	e, oerr := c05open(dir, all) // the backend holds every blob
+	if oerr != nil {
+		return "mkrobs false false [] []", 0, false, nil
 	}
 	defer e.close()
 	upEmpty := false
-	if ents, err := os.ReadDir(filepath.Join(dir, "upload")); err == nil && len(ents) == 0 {
+	if ents, rerr := os.ReadDir(filepath.Join(dir, "upload")); rerr == nil && len(ents) == 0 {
 		upEmpty = true
 	}
-	names, err := e.cas.ListCacheFiles()
-	if err != nil {
-		return "mkrobs false false [] []", false, 0, false
+	names, lerr := e.cas.ListCacheFiles()
+	if lerr != nil {
+		return "mkrobs false false [] []", 0, false, nil
 	}
 	var listed []int
-	var unknown []string
+	unknown := false
 	idx := map[string]int{}
 	for i := 0; i < c05NBlobs; i++ {
 		idx[c05digest(i).Hex()] = i
@@ -637,23 +655,25 @@ func c05observe(dir string) (coq string, opened bool, nlisted int, stuck bool) {
 		if i, ok := idx[n]; ok {
 			listed = append(listed, i)
 		} else {
-			unknown = append(unknown, n)
+			unknown = true
 		}
 	}
 	sort.Ints(listed)
-	if len(unknown) > 0 {
+	nlisted = len(listed)
+	if unknown {
 		listed = append(listed, 999) // a listed name that is not a digest of the case: visible as a mismatch
 	}
-	var ks []string
+	ks := make([]c05kobs, c05NBlobs)
+	needRetry := false
 	for i := 0; i < c05NBlobs; i++ {
 		d := c05digest(i)
-		var k c05kobs
+		k := &ks[i]
 		for _, l := range listed {
 			if l == i {
 				k.listed = true
 			}
 		}
-		if f, err := e.cas.GetCacheFileReader(d.Hex()); err == nil {
+		if f, rerr := e.cas.GetCacheFileReader(d.Hex()); rerr == nil {
 			b, rerr := io.ReadAll(f)
 			f.Close()
 			if rerr == nil {
@@ -663,7 +683,7 @@ func c05observe(dir string) (coq string, opened bool, nlisted int, stuck bool) {
 		var tm metadata.TorrentMeta
 		merr := e.cas.GetCacheFileMetadata(d.Hex(), &tm)
 		switch {
-		case merr == nil && c05validFor(tm.MetaInfo, d.Hex(), k.data) && k.hasData:
+		case merr == nil && k.hasData && c05validFor(tm.MetaInfo, d.Hex(), k.data):
 			k.md = c05MValid
 		case merr == nil:
 			k.md = c05MWrong
@@ -672,35 +692,64 @@ func c05observe(dir string) (coq string, opened bool, nlisted int, stuck bool) {
 		default:
 			k.md = c05MBroken
 		}
-		ks = append(ks, "")
-		_ = k
-		// request level: what a tracker / agent sees
-		blob := c05content(i)
-		raw, gerr := e.s.getMetaInfo(c05NS, d)
-		k.gm = c05classRaw(raw, gerr, d.Hex(), blob)
-		k.fin = k.gm
-		if k.gm != c05MValid && (k.listed || k.hasData) {
-			// on demand: absent metainfo makes the origin refresh the blob from the backend in the background;
-			// poll as a tracker would (a broken sidecar is never repaired by polling on the unfixed code)
-			for try := 0; try < 200 && k.fin != c05MValid; try++ {
-				time.Sleep(2 * time.Millisecond)
-				raw, gerr = e.s.getMetaInfo(c05NS, d)
-				k.fin = c05classRaw(raw, gerr, d.Hex(), blob)
-				if k.fin == c05MBroken && try >= 5 {
-					break
-				}
+		k.gm, k.fin, k.rt = k.md, k.md, k.md
+		if k.listed || k.hasData {
+			// request level: what a tracker / agent sees
+			raw, gerr := e.s.getMetaInfo(c05NS, d)
+			k.gm = c05classRaw(raw, gerr, d.Hex(), c05content(i))
+			k.fin = k.gm
+			if k.gm != c05MValid {
+				k.fin = c05poll(e, i, k.gm)
 			}
 			if k.fin != c05MValid {
 				stuck = true
 			}
 		}
+		if k.hasData && k.md != c05MValid {
+			needRetry = true
+		}
+	}
+	if needRetry {
+		d2, derr := dir2()
+		if derr != nil {
+			return "", 0, false, derr
+		}
+		e2, oerr := c05open(d2, nil) // the blob has not been written back: the backend is empty
+		if oerr != nil {
+			return "mkrobs false false [] []", 0, false, nil
+		}
+		for i := 0; i < c05NBlobs; i++ {
+			k := &ks[i]
+			if !k.hasData || k.md == c05MValid {
+				continue
+			}
+			d := c05digest(i)
+			// server.go:721-756 startClusterUploadHandler on a retried upload
+			_, serr := e2.s.uploader.start(d)
+			if serr != nil {
+				_ = e2.s.handleUploadConflict(context.Background(), serr, c05NS, d)
+			}
+			raw, gerr := e2.s.getMetaInfo(c05NS, d)
+			k.rt = c05classRaw(raw, gerr, d.Hex(), c05content(i))
+			if k.rt != c05MValid {
+				stuck = true
+			}
+		}
+		e2.close()
+	}
+	var kq []string
+	for _, k := range ks {
+		if !k.listed && !k.hasData && k.md == c05MAbsent {
+			kq = append(kq, "ka")
+			continue
+		}
 		dq := "None"
 		if k.hasData {
 			dq = verifhlib.Some(verifhlib.Bytes(k.data))
 		}
-		ks[len(ks)-1] = fmt.Sprintf("mkkobs %s %s %s %s %s", verifhlib.B(k.listed), dq, c05mnames[k.md], c05mnames[k.gm], c05mnames[k.fin])
+		kq = append(kq, fmt.Sprintf("mkkobs %s %s %s %s %s %s", verifhlib.B(k.listed), dq, c05mnames[k.md], c05mnames[k.gm], c05mnames[k.fin], c05mnames[k.rt]))
 	}
-	return fmt.Sprintf("mkrobs true %s %s %s", verifhlib.B(upEmpty), verifhlib.Ns(listed), verifhlib.List(ks)), true, len(listed), stuck
+	return fmt.Sprintf("mkrobs true %s %s %s", verifhlib.B(upEmpty), verifhlib.Ns(listed), verifhlib.List(kq)), nlisted, stuck, nil
 }
 
 // ---------------------------------------------------------------- one case
@@ -710,14 +759,24 @@ type c05result struct {
 	err error
 }
 
-func c05opCoq(o c05op) string {
+// lfOracle: os.RemoveAll unlinks in readdir order; true = the last-access sidecar went before the data file
+func c05lf(nc []c05ncall) bool {
+	for _, c := range nc {
+		if c.kind == "Unlink" && c.area == "AUp" {
+			return c.fname == "FLat"
+		}
+	}
+	return true
+}
+
+func c05opCoq(o c05op, nc []c05ncall) string {
 	switch o.K {
 	case c05Start:
 		return fmt.Sprintf("Start %d %d", o.U, o.D)
 	case c05Patch:
 		return fmt.Sprintf("Patch %d %d %d %s", o.U, o.D, o.Off, verifhlib.Bytes(o.Data))
 	case c05Commit:
-		return fmt.Sprintf("Commit %d %d", o.U, o.D)
+		return fmt.Sprintf("Commit %d %d %s", o.U, o.D, verifhlib.B(c05lf(nc)))
 	case c05WriteBack:
 		return fmt.Sprintf("WriteBack %d", o.D)
 	case c05Generate:
@@ -725,16 +784,18 @@ func c05opCoq(o c05op) string {
 	case c05Overwrite:
 		return fmt.Sprintf("Overwrite %d %d", o.D, o.PL)
 	case c05Refresh:
-		return fmt.Sprintf("Refresh %d %d", o.D, o.C)
+		return fmt.Sprintf("Refresh %d %s %s", o.D, verifhlib.Bytes(c05content(o.C)), verifhlib.B(c05lf(nc)))
 	case c05GetMeta:
 		return fmt.Sprintf("GetMeta %d", o.D)
 	}
 	panic("bad op")
 }
 
+const c05emptyCase = "mkcase (mkcfg [] [] [] 4 0 0) [] [] [] []"
+
 func c05run(tmp string, idx int, h c05hist, kind string, dump bool) c05result {
 	fail := func(err error) c05result {
-		return c05result{cs: verifhlib.Case{Coq: "mkcase (mkcfg [] [] []) [] [] [] []", Kind: kind, Incon: true,
+		return c05result{cs: verifhlib.Case{Coq: c05emptyCase, Kind: kind, Incon: true,
 			Sample: map[string]string{"error": err.Error()}}, err: err}
 	}
 	base := filepath.Join(tmp, fmt.Sprintf("h%d", idx))
@@ -758,6 +819,8 @@ func c05run(tmp string, idx int, h c05hist, kind string, dump bool) c05result {
 	}
 	var all []fstrace.Call
 	var ob []byte
+	// The child is the real origin running the history. If it dies (a panic, a failing NewCAStore) the
+	// case is reported as a disagreement, not skipped; tracing hiccups get three tries.
 	for try := 0; ; try++ {
 		os.RemoveAll(base)
 		os.MkdirAll(root, 0o755)
@@ -775,7 +838,7 @@ func c05run(tmp string, idx int, h c05hist, kind string, dump bool) c05result {
 			break
 		}
 		if try >= 2 {
-			return c05result{cs: verifhlib.Case{Coq: "mkcase (mkcfg [] [] []) [Generate 0] [OErr] [CBad 0] []", Kind: kind + "-child-died",
+			return c05result{cs: verifhlib.Case{Coq: "mkcase (mkcfg [] [] [] 4 0 0) [Generate 0] [OOk] [CBad 0] []", Kind: kind + "-child-died",
 				Tags: []string{"child-died"}, Sample: map[string]string{"error": cerr.Error(), "history": string(hb)}}, err: cerr}
 		}
 	}
@@ -812,49 +875,74 @@ func c05run(tmp string, idx int, h c05hist, kind string, dump bool) c05result {
 	if err := fstrace.SelfCheck(storeCalls, root, filepath.Join(base, "selfcheck")); err != nil {
 		return fail(fmt.Errorf("fstrace self-check: %v", err))
 	}
-	names := &c05names2{root: root, up: map[string]int{}, ca: map[string]int{}}
+	nslots := 0
+	for _, o := range h.Ops {
+		if (o.K == c05Start || o.K == c05Patch || o.K == c05Commit) && o.U+1 > nslots {
+			nslots = o.U + 1
+		}
+	}
+	names := &c05names2{root: root, up: map[string]int{}, ca: map[string]int{}, next: nslots}
 	for i := 0; i < c05NBlobs; i++ {
 		names.ca[c05digest(i).Hex()] = i
 	}
-	// upload slots first, so that slot u gets canonical id u; temporary upload files of refreshes follow
-	for _, uid := range co.Uids {
-		names.upID(uid)
+	for slot, uid := range co.Uids {
+		if uid != "" {
+			names.up[uid] = slot
+		}
 	}
 	var strace, sops, souts, hist []string
+	pls := map[int64]bool{c05PL: true}
 	for gi, g := range groups {
-		for _, c := range c05normalise(g, names) {
+		nc := c05normalise(g, names)
+		for _, c := range nc {
 			strace = append(strace, c.coq)
 		}
 		if gi > 0 {
 			o := h.Ops[gi-1]
-			sops = append(sops, c05opCoq(o))
+			sops = append(sops, c05opCoq(o, nc))
 			souts = append(souts, []string{"OOk", "ONotFound", "OConflict", "OAccepted", "OErr"}[co.Outs[gi-1]])
 			hist = append(hist, c05names[o.K])
-		}
-	}
-	if dump {
-		fmt.Println("ops:", sops)
-		fmt.Println("outs:", souts)
-		for _, s := range strace {
-			fmt.Println("  ", s)
+			if o.K == c05Overwrite && o.PL > 0 {
+				pls[o.PL] = true
+			}
 		}
 	}
 	nm := fstrace.NumMutating(storeCalls)
 	if nm != len(strace) {
 		return fail(fmt.Errorf("mutating calls %d != normalised %d", nm, len(strace)))
 	}
+	if dump {
+		fmt.Println("ops:", sops)
+		fmt.Println("outs:", souts)
+		for i, s := range strace {
+			if len(s) > 150 {
+				s = s[:150]
+			}
+			fmt.Println("  ", i+1, s)
+		}
+	}
 	var recs []string
 	anyStuck, sawListed := false, false
 	for k := 0; k <= nm; k++ {
 		rdir := filepath.Join(base, fmt.Sprintf("r%d", k))
-		if err := os.MkdirAll(rdir, 0o755); err != nil {
+		rdir2 := filepath.Join(base, fmt.Sprintf("q%d", k))
+		replay := func(dst string) error {
+			if err := os.MkdirAll(dst, 0o755); err != nil {
+				return err
+			}
+			done, err := fstrace.Replay(storeCalls, k, root, dst)
+			if err != nil || done != k {
+				return fmt.Errorf("replay of prefix %d: done=%d err=%v", k, done, err)
+			}
+			return nil
+		}
+		if err := replay(rdir); err != nil {
 			return fail(err)
 		}
-		done, err := fstrace.Replay(storeCalls, k, root, rdir)
-		if err != nil || done != k {
-			return fail(fmt.Errorf("replay of prefix %d: done=%d err=%v", k, done, err))
+		r, nl, stuck, oerr := c05observe(rdir, func() (string, error) { return rdir2, replay(rdir2) })
+		if oerr != nil {
+			return fail(oerr)
 		}
-		r, _, nl, stuck := c05observe(rdir)
 		if stuck {
 			anyStuck = true
 		}
@@ -866,18 +954,34 @@ func c05run(tmp string, idx int, h c05hist, kind string, dump bool) c05result {
 		}
 		recs = append(recs, r)
 		os.RemoveAll(rdir)
+		os.RemoveAll(rdir2)
 	}
-	// configuration: shard path of every digest, sha-256 and metainfo tables
+	// environment of the case: shard path of every digest, sha-256 table, serialised metainfo table
 	var kp, ht, mt []string
+	var plist []int
+	for pl := range pls {
+		plist = append(plist, int(pl))
+	}
+	sort.Ints(plist)
 	for i := 0; i < c05NBlobs; i++ {
 		hx := c05digest(i).Hex()
 		v, _ := strconv.ParseUint(hx[0:2], 16, 8)
 		w, _ := strconv.ParseUint(hx[2:4], 16, 8)
 		kp = append(kp, verifhlib.Pair(strconv.Itoa(i), verifhlib.Ns([]int{int(v), int(w)})))
 		ht = append(ht, verifhlib.Pair(verifhlib.Bytes(c05content(i)), strconv.Itoa(i)))
+		for _, pl := range plist {
+			mi, err := core.NewMetaInfo(c05digest(i), bytes.NewReader(c05content(i)), int64(pl))
+			if err != nil {
+				return fail(err)
+			}
+			raw, err := mi.Serialize()
+			if err != nil {
+				return fail(err)
+			}
+			mt = append(mt, fmt.Sprintf("(%d, %d, %s)", i, pl, verifhlib.Bytes(raw)))
+		}
 	}
-	_ = mt
-	cfgq := fmt.Sprintf("(mkcfg %s %s %s)", verifhlib.List(kp), verifhlib.List(ht), verifhlib.List(mt))
+	cfgq := fmt.Sprintf("(mkcfg %s %s %s %d %d %d)", verifhlib.List(kp), verifhlib.List(ht), verifhlib.List(mt), c05PL, nslots, c05NBlobs)
 	var rle []string
 	for i := 0; i < len(recs); {
 		j := i
@@ -892,7 +996,7 @@ func c05run(tmp string, idx int, h c05hist, kind string, dump bool) c05result {
 	if anyStuck {
 		tags = append(tags, "metainfo-stuck")
 	}
-	sample := map[string]interface{}{"ops": sops, "outs": souts, "trace": strace, "crash_points": nm + 1, "recovered_at_last_point": recs[len(recs)-1]}
+	sample := map[string]interface{}{"ops": sops, "outs": souts, "crash_points": nm + 1, "recovered_at_last_point": recs[len(recs)-1]}
 	return c05result{cs: verifhlib.Case{Coq: coq, NT: sawListed && nm >= 8, Kind: kind, Hist: hist, Tags: tags, Sample: sample, Key: verifhlib.List(sops)}}
 }
 
@@ -906,17 +1010,220 @@ func TestVerifC05Dump(t *testing.T) {
 	h := c05hist{Ops: []c05op{
 		{K: c05Start, U: 0, D: 0}, {K: c05Patch, U: 0, D: 0, Off: 0, Data: c05content(0)[:4]}, {K: c05Patch, U: 0, D: 0, Off: 4, Data: c05content(0)[4:]},
 		{K: c05Commit, U: 0, D: 0}, {K: c05WriteBack, D: 0}, {K: c05Overwrite, D: 0, PL: 3}, {K: c05Refresh, D: 2, C: 2}, {K: c05GetMeta, D: 2},
+		{K: c05Start, U: 1, D: 1}, {K: c05Patch, U: 1, D: 1, Off: 0, Data: []byte("zz")}, {K: c05Commit, U: 1, D: 1}, {K: c05Refresh, D: 2, C: 2}, {K: c05Refresh, D: 1, C: 0},
 	}}
 	r := c05run(tmp, 0, h, "dump", true)
 	fmt.Println(r.err)
-	fmt.Println(r.cs.Coq)
+	os.WriteFile(filepath.Join(tmp, "case.v"), []byte(r.cs.Coq), 0o644)
 }
 
 // ---------------------------------------------------------------- driver
 
 func c05driver(ctx *verifhlib.Ctx) {
-	// filled in below
-	c05drive(ctx)
+	type job struct {
+		h    c05hist
+		kind string
+	}
+	var jobs []job
+	add := func(kind string, ops ...c05op) { jobs = append(jobs, job{c05hist{Ops: ops}, kind}) }
+	start := func(u, d int) c05op { return c05op{K: c05Start, U: u, D: d} }
+	patch := func(u, d int, off int64, data []byte) c05op {
+		return c05op{K: c05Patch, U: u, D: d, Off: off, Data: data}
+	}
+	commit := func(u, d int) c05op { return c05op{K: c05Commit, U: u, D: d} }
+	wb := func(d int) c05op { return c05op{K: c05WriteBack, D: d} }
+	gen := func(d int) c05op { return c05op{K: c05Generate, D: d} }
+	ow := func(d int, pl int64) c05op { return c05op{K: c05Overwrite, D: d, PL: pl} }
+	refresh := func(d, c int) c05op { return c05op{K: c05Refresh, D: d, C: c} }
+	gm := func(d int) c05op { return c05op{K: c05GetMeta, D: d} }
+	upload := func(u, d, c int) []c05op { // a complete chunked upload of content c under name d
+		b := c05content(c)
+		h := len(b) / 2
+		return []c05op{start(u, d), patch(u, d, 0, b[:h]), patch(u, d, int64(h), b[h:]), commit(u, d)}
+	}
+	cat := func(l ...[]c05op) []c05op {
+		var r []c05op
+		for _, x := range l {
+			r = append(r, x...)
+		}
+		return r
+	}
+
+	// ---- seeds: the refutation witness and the boundaries reasoned about
+	// C05_empty_torrentmeta_refuted: backend refresh; crash between creation and write of `_torrentmeta`
+	add("seed-refresh-metainfo", refresh(2, 2), gm(2))
+	// cluster upload: commit, write-back (persist flag, metainfo)
+	add("seed-upload-writeback", cat(upload(0, 0, 0), []c05op{wb(0), gm(0)})...)
+	// internal transfer: commit then Generate; the empty blob
+	add("seed-transfer-empty-blob", cat(upload(0, 1, 1), []c05op{gen(1), gen(1)})...)
+	// metainfo overwritten in place with another piece length (truncate, write), and back
+	add("seed-overwrite", refresh(0, 0), ow(0, 3), ow(0, 4), ow(0, 0), ow(0, 7), gen(0))
+	// wrong bytes: verification fails before the rename; then the right bytes
+	add("seed-wrong-content", cat(upload(0, 0, 2), upload(1, 0, 0), []c05op{wb(0)}, []c05op{refresh(2, 0), refresh(2, 2)})...)
+	// conflicts: second upload of a cached blob, refresh of a cached blob, commit of a lost upload
+	add("seed-conflicts", cat(upload(0, 2, 2), []c05op{start(1, 2), commit(1, 2), refresh(2, 2), gen(2)},
+		[]c05op{start(2, 0), patch(2, 0, 0, c05content(0)), refresh(0, 0), patch(2, 0, 0, nil), commit(2, 0), gen(1), wb(1), ow(1, 4), gm(1)})...)
+	// two uploads of the same name racing to commit
+	add("seed-two-uploads", start(0, 0), start(1, 0), patch(0, 0, 0, c05content(0)), patch(1, 0, 0, c05content(0)), commit(1, 0), commit(0, 0), wb(0))
+
+	r := verifhlib.NewRng(ctx.Seed)
+	for i := 0; i < ctx.N; i++ {
+		n := r.Range(4, 9)
+		if ctx.Tier == "thorough" && r.Chance(30) {
+			n = r.Range(9, 14)
+		}
+		bad := 12
+		kind := "random"
+		if i%5 == 4 {
+			bad, kind = 35, "random-malformed"
+		}
+		jobs = append(jobs, job{c05hist{Ops: c05gen(r.Fork(), n, bad)}, kind})
+	}
+
+	res := make([]c05result, len(jobs))
+	var wg sync.WaitGroup
+	sem := make(chan struct{}, 8)
+	for i := range jobs {
+		wg.Add(1)
+		sem <- struct{}{}
+		go func(i int) {
+			defer wg.Done()
+			defer func() { <-sem }()
+			res[i] = c05run(ctx.Tmp, i, jobs[i].h, jobs[i].kind, false)
+		}(i)
+	}
+	wg.Wait()
+	var errs []string
+	for i := range res {
+		if res[i].err != nil {
+			errs = append(errs, fmt.Sprintf("case %d (%s): %v", i, jobs[i].kind, res[i].err))
+		}
+		ctx.Emit(res[i].cs)
+	}
+	sort.Strings(errs)
+	if len(errs) > 0 {
+		fmt.Fprintln(os.Stderr, "C05 driver: inconclusive cases:\n"+strings.Join(errs, "\n"))
+	}
 }
 
-func c05drive(ctx *verifhlib.Ctx) {}
+// c05gen draws a history against a shadow state so that most operations take their non-error path
+// (structured, mostly valid); `bad` % are meant to fail (wrong bytes, lost uploads, absent blobs).
+func c05gen(r *verifhlib.Rng, n, bad int) []c05op {
+	type upl struct {
+		d       int
+		content []byte
+	}
+	var ops []c05op
+	cached := map[int]bool{}
+	open := map[int]*upl{}
+	nextSlot := 0
+	pickCached := func() (int, bool) {
+		var l []int
+		for d := range cached {
+			l = append(l, d)
+		}
+		sort.Ints(l)
+		if len(l) == 0 {
+			return 0, false
+		}
+		return l[r.Intn(len(l))], true
+	}
+	pickOpen := func() (int, bool) {
+		var l []int
+		for u := range open {
+			l = append(l, u)
+		}
+		sort.Ints(l)
+		if len(l) == 0 {
+			return 0, false
+		}
+		return l[r.Intn(len(l))], true
+	}
+	for len(ops) < n {
+		if r.Chance(bad) {
+			switch r.Intn(6) {
+			case 0: // commit of an upload that does not exist
+				ops = append(ops, c05op{K: c05Commit, U: nextSlot + 1, D: r.Intn(c05NBlobs)})
+			case 1: // metainfo for a blob that is not cached
+				ops = append(ops, c05op{K: []int{c05Generate, c05WriteBack, c05GetMeta}[r.Intn(3)], D: r.Intn(c05NBlobs)})
+			case 2: // refresh delivering the wrong bytes
+				d := r.Intn(c05NBlobs)
+				ops = append(ops, c05op{K: c05Refresh, D: d, C: (d + 1 + r.Intn(c05NBlobs-1)) % c05NBlobs})
+			case 3: // overwrite with piece length 0
+				ops = append(ops, c05op{K: c05Overwrite, D: r.Intn(c05NBlobs), PL: 0})
+			case 4: // commit with wrong / incomplete bytes
+				if u, ok := pickOpen(); ok {
+					ops = append(ops, c05op{K: c05Commit, U: u, D: (open[u].d + 1) % c05NBlobs})
+					delete(open, u)
+				}
+			default: // start for a cached blob
+				if d, ok := pickCached(); ok {
+					ops = append(ops, c05op{K: c05Start, U: nextSlot, D: d})
+					nextSlot++
+				}
+			}
+			continue
+		}
+		switch c := r.Intn(100); {
+		case c < 18: // start an upload
+			d := r.Intn(c05NBlobs)
+			ops = append(ops, c05op{K: c05Start, U: nextSlot, D: d})
+			if !cached[d] {
+				open[nextSlot] = &upl{d: d}
+			}
+			nextSlot++
+		case c < 40: // patch: the next chunk of the right content (sometimes all of it)
+			u, ok := pickOpen()
+			if !ok {
+				continue
+			}
+			up := open[u]
+			want := c05content(up.d)
+			if cached[up.d] {
+				ops = append(ops, c05op{K: c05Patch, U: u, D: up.d, Off: 0, Data: want})
+				continue
+			}
+			off := len(up.content)
+			if off > len(want) {
+				off = len(want)
+			}
+			rest := want[off:]
+			k := len(rest)
+			if k > 0 && r.Chance(50) {
+				k = r.Range(1, k)
+			}
+			ops = append(ops, c05op{K: c05Patch, U: u, D: up.d, Off: int64(off), Data: rest[:k]})
+			up.content = append(up.content[:off], rest[:k]...)
+		case c < 58: // commit
+			u, ok := pickOpen()
+			if !ok {
+				continue
+			}
+			up := open[u]
+			ops = append(ops, c05op{K: c05Commit, U: u, D: up.d})
+			if bytes.Equal(up.content, c05content(up.d)) {
+				cached[up.d] = true
+			}
+			delete(open, u)
+		case c < 68:
+			if d, ok := pickCached(); ok {
+				ops = append(ops, c05op{K: c05WriteBack, D: d})
+			}
+		case c < 76:
+			if d, ok := pickCached(); ok {
+				ops = append(ops, c05op{K: c05Generate, D: d})
+			}
+		case c < 84:
+			if d, ok := pickCached(); ok {
+				ops = append(ops, c05op{K: c05Overwrite, D: d, PL: int64([]int{1, 3, 4, 5, 16, 100}[r.Intn(6)])})
+			}
+		case c < 96: // backend refresh
+			d := r.Intn(c05NBlobs)
+			ops = append(ops, c05op{K: c05Refresh, D: d, C: d})
+			cached[d] = true
+		default:
+			ops = append(ops, c05op{K: c05GetMeta, D: r.Intn(c05NBlobs)})
+		}
+	}
+	return ops
+}
